@@ -1,7 +1,15 @@
 """C17 — flow iterators equal their Python reference (Slice is list slicing).
 
 Real code: lena.flow.Slice / Reverse / Chain / CountFrom / RunningChunkBy.
-Model: lean/LenaModel/Model/C17.lean, theorems lean/LenaModel/Props/C17.lean.
+Model: lean/LenaModel/Model/C17.lean and Model/C17Sess.lean (one instance used more than once), theorems
+lean/LenaModel/Props/C17.lean (helper lemmas Lemmas/C17.lean, Lemmas/C17Sess.lean).
+
+The property is stated per call.  Besides single runs of fresh instances the harness drives the elements the way the
+framework may: the same instance run/called several times, several generators of one instance alive at once and
+advanced in an interleaved order, a run abandoned half-way followed by another, two instances built from the same
+arguments used in turn, Slice.run and Slice.fill_into of one object interleaved, fill_into continued after
+LenaStopFill.  The oracle plays the same schedule on the Python reference (a fresh reference object per call) and
+demands equality for every call.
 """
 import itertools
 
@@ -10,7 +18,8 @@ from harness.common import exc_name
 PID = "C17"
 TITLE = "Flow iterators equal their Python reference (Slice is list slicing)"
 LEAN_MODULES = ["LenaModel.Props.C17"]
-LEAN_SOURCES = ["LenaModel/Model/C17.lean", "LenaModel/Props/C17.lean"]
+LEAN_SOURCES = ["LenaModel/Model/C17.lean", "LenaModel/Model/C17Sess.lean", "LenaModel/Lemmas/C17.lean",
+                "LenaModel/Props/C17.lean"]
 DRIVER = "drivers/C17.lean"
 THEOREMS = [
     "Lena.C17.slice_run_eq_pyslice",
@@ -27,22 +36,46 @@ THEOREMS = [
     "Lena.C17.chunks_are_windows",
     "Lena.C17.windows_spec",
     "Lena.C17.windows_short",
+    # one instance used more than once (Model/C17Sess.lean)
+    "Lena.C17.session_calls_independent",
+    "Lena.C17.session_no_generator",
+    "Lena.C17.countfrom_calls_independent",
+    "Lena.C17.countfrom_call_fresh",
+    "Lena.C17.countfrom_never_stops",
+    "Lena.C17.slice_runs_independent",
+    "Lena.C17.reverse_runs_independent",
+    "Lena.C17.chunks_runs_independent",
+    "Lena.C17.chain_calls_independent",
+    "Lena.C17.slice_run_history_independent",
+    "Lena.C17.slice_fill_ignores_runs",
+    "Lena.C17.stopfill_persists",
+    "Lena.C17.fill_trace_eq",
 ]
 TRUSTED = [
     "Lean 4.33.0 kernel; axioms limited to propext, Classical.choice, Quot.sound (audited by #print axioms on every run)",
-    "hand transcription of lena/flow/iterators.py and RunningChunkBy.run into LenaModel/Model/C17.lean, validated by this "
-    "correspondence check on the property's whole enumerated scope",
+    "hand transcription of lena/flow/iterators.py and RunningChunkBy.run into LenaModel/Model/C17.lean and of what the "
+    "instances keep between calls into LenaModel/Model/C17Sess.lean, validated by this correspondence check on the "
+    "property's whole enumerated scope and on schedules of repeated / interleaved use of one instance",
     "itertools.islice / collections.deque / itertools.chain / itertools.count semantics as transcribed (validated likewise)",
     "JSON line protocol encoders (harness/props/c17.py, drivers/C17.lean)",
 ]
 ASSUMPTIONS = [
     "finite flows of integers stand for finite flows of arbitrary values (the code never inspects the values)",
     "pySlice (Lean) is Python list slicing: checked against xs[a:b:s] on every case",
+    "a flow handed to run is an iterator (the framework converts with flow_to_iter); flows of different runs are "
+    "different iterator objects; Chain calls that share one-shot iterators are checked against itertools.chain by the "
+    "oracle only (the model covers re-iterable iterables)",
 ]
 RULE = ("quick and thorough: exhaustive enumeration of start,stop in {None,-7..7} x step in {None,1..4} x len 0..10 "
         "(plus one- and two-argument call forms, steps 0,-1,-3 for rejection), fill_into for all non-negative "
         "combinations, Reverse/Chain/CountFrom/RunningChunkBy(1..5, tuple/list/namedtuple-style containers); thorough adds "
-        "seeded random cases with len<=60, |index|<=70, step<=12. Non-trivial: result non-empty or an exception.")
+        "seeded random cases with len<=60, |index|<=70, step<=12. Instance reuse (both tiers): for every (start,stop,step) of "
+        "the scope one Slice instance run on 2-3 flows under six schedules (sequential, lock-step, interrupted, idle first "
+        "generator, abandoned, three generators); the same for Reverse, RunningChunkBy(1..5, 3 container kinds), Chain over "
+        "lists/tuples/ranges/shared one-shot iterators (lens 0..3 cubed); CountFrom: every schedule of <=7 operations with "
+        "<=3 calls of one instance; twin instances with equal arguments used in turn; fill_into continued after "
+        "LenaStopFill (whole non-negative scope), two Slice instances filled in turn, run and fill_into of one Slice "
+        "interleaved; thorough adds 30000 random schedules. Non-trivial: result non-empty, any event, or an exception.")
 CASE_TIMEOUT = 10
 
 
@@ -100,6 +133,7 @@ def gen_cases(ctx):
             extra.append(dict(c, vk="falsy"))
             extra.append(dict(c, vk="none"))
     cases.extend(extra)
+    cases.extend(_reuse_cases())
     ctx.exhaustive = True
     if ctx.tier == "thorough":
         ctx.exhaustive = False  # the random part is sampled
@@ -119,7 +153,204 @@ def gen_cases(ctx):
             else:
                 cases.append({"op": "chunks", "cs": rng.randint(1, 9), "n": rng.randint(0, 40),
                               "container": rng.choice(["tuple", "list", "star"])})
+        for _ in range(30000):
+            cases.append(_random_reuse_case(rng))
     return cases
+
+
+# ---- one instance used more than once ------------------------------------------------------------
+# A session case: {"op": "sess", "el": ..., <constructor arguments>, "ops": [...]} where an item of "ops" is a list
+# (= create a generator from THE instance: `el.run(iter(flow))`, `el()` for the sources CountFrom and Chain, whose
+# flow argument is ignored) or a number g (= `next` of the generator number g, numbered in order of creation).
+
+def _flow(j, n):
+    """flow number j of a session: values that tell the flows apart"""
+    return list(range(100 * j, 100 * j + n))
+
+
+def _ref_len(case, flow):
+    el = case["el"]
+    if el == "slice":
+        return len(flow[case["start"]:case["stop"]:case["step"]])
+    if el == "reverse":
+        return len(flow)
+    if el == "chunks":
+        return max(0, len(flow) - case["cs"] + 1)
+    if el == "chain":
+        return sum(case["lens"])
+    return 4  # countfrom: how many values a "drain" takes
+
+
+TEMPLATES = ("seq", "lock", "part", "idle", "abandon", "lock3")
+
+
+def _schedule(case, tpl, lens):
+    """A concrete schedule for generators over flows of the given lengths.  `drain` = as many `next` as the reference
+    has values, plus one (to see StopIteration); whatever is left is collected at the end of the session anyway."""
+    flows = [_flow(j, n) for j, n in enumerate(lens)]
+    L = [_ref_len(case, f) for f in flows]
+    def drain(g, done=0):
+        return [g] * (L[g] - done + 1)
+    f0, f1 = flows[0], flows[1]
+    if tpl == "seq":            # the instance is run, exhausted, and run again
+        return [f0] + drain(0) + [f1] + drain(1)
+    if tpl == "lock":           # two generators of the instance alive at once, advanced in turn
+        return [f0, f1] + [0, 1] * (max(L[0], L[1]) + 1)
+    if tpl == "part":           # the first is interrupted by a complete second run
+        k = (L[0] + 1) // 2
+        return [f0] + [0] * k + [f1] + drain(1) + drain(0, k)
+    if tpl == "idle":           # the first generator is created but not advanced until the second is exhausted
+        return [f0, f1] + drain(1) + drain(0)
+    if tpl == "abandon":        # the first run is abandoned half-way
+        return [f0] + [0] * ((L[0] + 1) // 2) + [f1] + drain(1)
+    if tpl == "lock3":
+        f2 = flows[2]
+        return [f0, f1, 0, f2] + [0, 1, 2] * (max(L) + 1)
+    raise ValueError(tpl)
+
+
+def _countfrom_schedules(maxlen, maxcalls):
+    """every sequence of `call` ([]) / `next g` (g among the generators created so far) of length <= maxlen that
+    starts with a call"""
+    out = []
+    def rec(seq, ncalls):
+        if seq:
+            out.append(list(seq))
+        if len(seq) == maxlen:
+            return
+        if ncalls < maxcalls:
+            rec(seq + [[]], ncalls + 1)
+        for g in range(ncalls):
+            rec(seq + [g], ncalls)
+    rec([], 0)
+    return [o for o in out if any(isinstance(x, int) for x in o)]
+
+
+def _reuse_cases():
+    cases = []
+    idx = [None] + list(range(-7, 8))
+    # Slice.run: every (start, stop, step) of the scope, the same instance on two (three) flows
+    pairs = {"seq": [(10, 7), (4, 10)], "lock": [(10, 7), (6, 6)], "part": [(10, 4), (5, 9)], "idle": [(7, 10)],
+             "abandon": [(10, 10)], "lock3": [(9, 5, 7)]}
+    for a in idx:
+        for b in idx:
+            for st in [None, 1, 2, 3, 4]:
+                base = {"op": "sess", "el": "slice", "start": a, "stop": b, "step": st}
+                for tpl in TEMPLATES:
+                    for lens in pairs[tpl]:
+                        cases.append(dict(base, tpl=tpl, ops=_schedule(base, tpl, lens)))
+    # Reverse, RunningChunkBy
+    for tpl in TEMPLATES:
+        for n1 in range(0, 6):
+            for n2 in range(0, 6):
+                lens = (n1, n2, 3)
+                base = {"op": "sess", "el": "reverse"}
+                cases.append(dict(base, tpl=tpl, ops=_schedule(base, tpl, lens)))
+        for cs in range(1, 6):
+            for cont in ("tuple", "list", "star"):
+                for lens in ((7, 4, 5), (3, 8, 6), (6, 6, 1), (0, 5, 9)):
+                    base = {"op": "sess", "el": "chunks", "cs": cs, "container": cont}
+                    cases.append(dict(base, tpl=tpl, ops=_schedule(base, tpl, lens)))
+    # Chain over re-iterable iterables (every call sees all values) and over one-shot iterators shared by the calls
+    for lens in list(itertools.product(range(0, 4), repeat=3)) + [()]:
+        for kind in ("list", "tuple", "range", "iter"):
+            for tpl in TEMPLATES:
+                base = {"op": "sess", "el": "chain", "lens": list(lens), "kind": kind}
+                cases.append(dict(base, tpl=tpl, ops=[([] if isinstance(o, list) else o)
+                                                      for o in _schedule(base, tpl, (0, 0, 0))]))
+    # CountFrom: every schedule of up to 7 operations with up to 3 calls of the same instance
+    scheds = _countfrom_schedules(7, 3)
+    for a, st in ((0, 1), (-3, -2), (5, 3), (2, 0)):
+        for ops in scheds:
+            cases.append({"op": "sess", "el": "countfrom", "start": a, "step": st, "tpl": "all", "ops": ops})
+    for a in (-3, 0, 5, 10):
+        for st in (-2, -1, 0, 1, 2, 3):
+            base = {"op": "sess", "el": "countfrom", "start": a, "step": st}
+            for tpl in TEMPLATES:
+                cases.append(dict(base, tpl=tpl, ops=[([] if isinstance(o, list) else o)
+                                                      for o in _schedule(base, tpl, (0, 0, 0))]))
+    # two instances built with the same arguments, used in turn (state must be per instance)
+    for a in idx:
+        for b in idx:
+            for st in [None, 1, 3]:
+                cases.append({"op": "twins", "el": "slice", "start": a, "stop": b, "step": st, "n": 9, "n2": 6})
+    for n in range(0, 6):
+        cases.append({"op": "twins", "el": "reverse", "n": n, "n2": 4})
+    for cs in range(1, 6):
+        for cont in ("tuple", "list", "star"):
+            cases.append({"op": "twins", "el": "chunks", "cs": cs, "container": cont, "n": 7, "n2": 5})
+    for a, st in ((0, 1), (-3, -2), (5, 3), (2, 0)):
+        cases.append({"op": "twins", "el": "countfrom", "start": a, "step": st, "n": 6, "n2": 4})
+    for lens in itertools.product(range(0, 3), repeat=3):
+        cases.append({"op": "twins", "el": "chain", "lens": list(lens), "kind": "list"})
+    # fill_into: a caller that goes on filling after LenaStopFill; two instances filled in turn;
+    # fill_into and run of the same instance interleaved
+    nn = [None] + list(range(0, 8))
+    for a in nn:
+        for b in nn:
+            for st in [None, 1, 2, 3, 4]:
+                for n in range(0, 11):
+                    cases.append({"op": "fill_trace", "start": a, "stop": b, "step": st, "n": n})
+                cases.append({"op": "fill2", "start": a, "stop": b, "step": st, "n": 10, "n2": 7})
+                for pat in SLICE_INST_PATTERNS:
+                    cases.append({"op": "slice_inst", "start": a, "stop": b, "step": st, "pat": pat,
+                                  "ops": _slice_inst_ops(pat)})
+    for a, b in ((-3, None), (None, -2), (-5, 4), (2, -1), (-4, -1)):
+        for st in (None, 2):
+            for pat in SLICE_INST_PATTERNS:
+                cases.append({"op": "slice_inst", "start": a, "stop": b, "step": st, "pat": pat,
+                              "ops": _slice_inst_ops(pat)})
+    return cases
+
+
+# patterns of a `slice_inst` case: 'r<n>' = list(sl.run(iter(flow of n values))), 'f<n>' = n calls of fill_into
+SLICE_INST_PATTERNS = ("r9 r6 r9", "f3 r8 f4 r5 f5", "r7 f12", "f1 r4 f1 r10 f1 r0 f8")
+
+
+def _slice_inst_ops(pat):
+    """items: a list = run on that flow, a number v = fill_into(element, v); the values filled are 1000, 1001, ..."""
+    ops, nfill, nrun = [], 0, 0
+    for w in pat.split():
+        k = int(w[1:])
+        if w[0] == "r":
+            ops.append(_flow(nrun, k))
+            nrun += 1
+        else:
+            ops.extend(range(1000 + nfill, 1000 + nfill + k))
+            nfill += k
+    return ops
+
+
+def _random_reuse_case(rng):
+    def ri(lo=-12, hi=12):
+        return None if rng.random() < 0.2 else rng.randint(lo, hi)
+    r = rng.random()
+    if r < 0.15:
+        ops = []
+        for _ in range(rng.randint(2, 30)):
+            ops.append(_flow(0, rng.randint(0, 20)) if rng.random() < 0.3 else 1000 + len(ops))
+        return {"op": "slice_inst", "start": ri(0, 12), "stop": ri(0, 12), "step": rng.choice([None, 1, 2, 3, 5]),
+                "pat": "random", "ops": ops}
+    el = rng.choice(["slice", "slice", "slice", "reverse", "chunks", "chain", "countfrom"])
+    case = {"op": "sess", "el": el, "tpl": "random"}
+    if el == "slice":
+        case.update(start=ri(), stop=ri(), step=rng.choice([None, 1, 2, 3, 5]))
+    elif el == "chunks":
+        case.update(cs=rng.randint(1, 6), container=rng.choice(["tuple", "list", "star"]))
+    elif el == "chain":
+        case.update(lens=[rng.randint(0, 4) for _ in range(rng.randint(0, 4))],
+                    kind=rng.choice(["list", "tuple", "range", "iter"]))
+    elif el == "countfrom":
+        case.update(start=rng.randint(-20, 20), step=rng.randint(-4, 4))
+    ops, ng = [], 0
+    for _ in range(rng.randint(2, 40)):
+        if ng == 0 or (ng < 4 and rng.random() < 0.15):
+            ops.append(_flow(ng, rng.randint(0, 14)) if el in ("slice", "reverse", "chunks") else [])
+            ng += 1
+        else:
+            ops.append(rng.randrange(ng))
+    case["ops"] = ops
+    return case
 
 
 _FALSY = [0, None, False, "", (), 0.0, 7, None]
@@ -226,10 +457,198 @@ def run_impl(case):
         except Exception as e:
             return {"e": exc_name(e), "phase": "init"}
         try:
-            return {"r": [_encs(c) for c in el.run(iter(_vals(case)))]}
+            # collect first, look afterwards: a consumer keeps the chunks it was given (`list(rcb.run(flow))`)
+            chunks = list(el.run(iter(_vals(case))))
+            return {"r": [_encs(c) for c in chunks]}
         except Exception as e:
             return {"e": exc_name(e), "phase": "run"}
+    if op == "sess":
+        try:
+            spawn = _real_spawner(case)
+        except Exception as e:
+            return {"e": exc_name(e), "phase": "init"}
+        return _play(case, spawn)
+    if op == "twins":
+        # two instances built from the same arguments, one generator each, advanced in turn
+        try:
+            sp1, sp2 = _real_spawner(case), _real_spawner(case)
+        except Exception as e:
+            return {"e": exc_name(e), "phase": "init"}
+        return _play_twins(case, sp1, sp2)
+    if op == "fill_trace":
+        try:
+            sl = lena.flow.Slice(case["start"], case["stop"], case["step"])
+        except Exception as e:
+            return {"e": exc_name(e), "phase": "init"}
+        st = _Store()
+        return {"out": [_fill_once(sl, st, x) for x in _vals(case)], "r": _encs(st.vals)}
+    if op == "fill2":
+        try:
+            sl1 = lena.flow.Slice(case["start"], case["stop"], case["step"])
+            sl2 = lena.flow.Slice(case["start"], case["stop"], case["step"])
+        except Exception as e:
+            return {"e": exc_name(e), "phase": "init"}
+        xs1, xs2 = _flow(0, case["n"]), _flow(1, case["n2"])
+        st1, st2, stop1, stop2 = _Store(), _Store(), None, None
+        for i in range(max(len(xs1), len(xs2))):
+            # every caller stops feeding an element after its LenaStopFill
+            if i < len(xs1) and stop1 is None and _fill_once(sl1, st1, xs1[i]) == "stop":
+                stop1 = i
+            if i < len(xs2) and stop2 is None and _fill_once(sl2, st2, xs2[i]) == "stop":
+                stop2 = i
+        return {"a": {"r": _encs(st1.vals), "stop": stop1}, "b": {"r": _encs(st2.vals), "stop": stop2}}
+    if op == "slice_inst":
+        try:
+            sl = lena.flow.Slice(case["start"], case["stop"], case["step"])
+        except Exception as e:
+            return {"e": exc_name(e), "phase": "init"}
+        ev, filled = [], []
+        for o in case["ops"]:
+            if isinstance(o, list):
+                try:
+                    ev.append({"r": _encs(sl.run(iter(o)))})
+                except Exception as e:
+                    ev.append({"e": exc_name(e)})
+            else:
+                # fill_into(element, value) fills the element it is given: a new one for every call
+                st = _Store()
+                ev.append(_fill_once(sl, st, o))
+                filled.extend(st.vals)
+        return {"ev": ev, "filled": _encs(filled)}
     raise ValueError(op)
+
+
+def _fill_once(sl, store, v):
+    """one `fill_into(store, v)`: 'filled' (store.fill(v) was called, once), 'skipped', 'stop' (LenaStopFill) or
+    the exception / a description of anything else"""
+    import lena.core
+    before = len(store.vals)
+    try:
+        sl.fill_into(store, v)
+    except lena.core.LenaStopFill:
+        new = store.vals[before:]
+        return "stop" if not new else f"stop after filling {new!r}"
+    except Exception as e:
+        return exc_name(e)
+    new = store.vals[before:]
+    if not new:
+        return "skipped"
+    if len(new) == 1 and new[0] is v:
+        return "filled"
+    return f"filled {new!r}"
+
+
+def _chain_iterables(case):
+    """fresh iterables for a Chain session (kind 'iter': one-shot iterators, shared by all calls)"""
+    kind = case.get("kind", "list")
+    xss = _chain_xss(case)
+    if kind == "list":
+        return xss
+    if kind == "tuple":
+        return [tuple(x) for x in xss]
+    if kind == "range":
+        return [range(x[0], x[-1] + 1) if x else range(0) for x in xss]
+    return [iter(x) for x in xss]
+
+
+def _real_spawner(case):
+    """Build ONE instance of the real element; return the function that makes a new generator from it."""
+    import lena.flow
+    el = case["el"]
+    if el == "slice":
+        sl = lena.flow.Slice(case["start"], case["stop"], case["step"])
+        return lambda flow: sl.run(iter(flow))
+    if el == "reverse":
+        rv = lena.flow.Reverse()
+        return lambda flow: rv.run(iter(flow))
+    if el == "chunks":
+        cont = case["container"]
+        if cont == "tuple":
+            rc = lena.flow.RunningChunkBy(case["cs"])
+        elif cont == "list":
+            rc = lena.flow.RunningChunkBy(case["cs"], list, from_iterable=True)
+        else:
+            rc = lena.flow.RunningChunkBy(case["cs"], lambda *a: list(a))
+        return lambda flow: rc.run(iter(flow))
+    if el == "chain":
+        ch = lena.flow.Chain(*_chain_iterables(case))
+        return lambda flow: ch()
+    if el == "countfrom":
+        cf = lena.flow.CountFrom(case["start"], case["step"])
+        return lambda flow: cf()
+    raise ValueError(el)
+
+
+def _ref_spawner(case):
+    """The Python reference named by the property, per call: xs[start:stop:step], reversed(list(xs)), the sliding
+    windows, itertools.chain(*iterables), itertools.count(start, step)."""
+    el = case["el"]
+    if el == "slice":
+        return lambda flow: iter(list(flow)[case["start"]:case["stop"]:case["step"]])
+    if el == "reverse":
+        return lambda flow: reversed(list(flow))
+    if el == "chunks":
+        cs = case["cs"]
+        conv = tuple if case["container"] == "tuple" else list
+        return lambda flow: iter([conv(flow[i:i + cs]) for i in range(0, len(flow) - cs + 1)])
+    if el == "chain":
+        its = _chain_iterables(case)
+        return lambda flow: itertools.chain(*its)
+    if el == "countfrom":
+        return lambda flow: itertools.count(case["start"], case["step"])
+    raise ValueError(el)
+
+
+_REST_CAP = 300
+
+
+def _encv(v):
+    return _encs(v) if isinstance(v, (list, tuple)) else _enc(v)
+
+
+def _play(case, spawn):
+    """Run the schedule of a session: events [g, value] / [g, None] (StopIteration), then what every generator still
+    yields (`tail` values for the endless CountFrom)."""
+    gens, raw = [], []
+    tail = 3 if case["el"] == "countfrom" else _REST_CAP
+    stop = object()
+    def enc(evs):
+        return [[g, None if v is stop else _encv(v)] for g, v in evs]
+    try:
+        for o in case["ops"]:
+            if isinstance(o, list):
+                gens.append(spawn(o))
+            elif o < len(gens):
+                try:
+                    raw.append((o, next(gens[o])))
+                except StopIteration:
+                    raw.append((o, stop))
+        rest = [list(itertools.islice(g, tail)) for g in gens]
+    except Exception as e:
+        return {"e": exc_name(e), "phase": "run", "ev": enc(raw)}
+    # the values are looked at only now: the consumer keeps what it was given while the generators go on
+    return {"ev": enc(raw), "rest": [[_encv(v) for v in r] for r in rest]}
+
+
+def _play_twins(case, sp1, sp2):
+    el = case["el"]
+    f1, f2 = _flow(0, case.get("n", 0)), _flow(1, case.get("n2", 0))
+    tail = 5 if el == "countfrom" else _REST_CAP
+    try:
+        g1, g2 = sp1(f1), sp2(f2)
+        a, b = [], []
+        for _ in range(tail):
+            n = len(a) + len(b)
+            for g, out in ((g1, a), (g2, b)):
+                try:
+                    out.append(_encv(next(g)))
+                except StopIteration:
+                    pass
+            if len(a) + len(b) == n:
+                break
+    except Exception as e:
+        return {"e": exc_name(e), "phase": "run"}
+    return {"a": a, "b": b}
 
 
 def _chain_xss(case):
@@ -261,6 +680,44 @@ def model_requests(case):
     if op == "chunks":
         xs = list(range(case["n"]))
         return [{"op": "chunks", "cs": case["cs"], "xs": xs}, {"op": "windows", "cs": case["cs"], "xs": xs}]
+    if op == "sess":
+        el = case["el"]
+        req = {"op": "session", "el": el, "ops": case["ops"]}
+        if el == "slice":
+            req.update(start=case["start"], stop=case["stop"], step=case["step"])
+        elif el == "chunks":
+            req.update(cs=case["cs"])
+        elif el == "chain":
+            if case.get("kind") == "iter":
+                return []       # calls sharing one-shot iterators: not modelled, checked by the oracle only
+            req.update(xss=_chain_xss(case))
+        elif el == "countfrom":
+            req.update(start=case["start"], step=case["step"], tail=3)
+        return [req]
+    if op == "twins":
+        el = case["el"]
+        f1, f2 = _flow(0, case.get("n", 0)), _flow(1, case.get("n2", 0))
+        if el == "slice":
+            return [{"op": "slice", "start": case["start"], "stop": case["stop"], "step": case["step"], "xs": f}
+                    for f in (f1, f2)]
+        if el == "reverse":
+            return [{"op": "reverse", "xs": f} for f in (f1, f2)]
+        if el == "chunks":
+            return [{"op": "chunks", "cs": case["cs"], "xs": f} for f in (f1, f2)]
+        if el == "chain":
+            return [{"op": "chain", "xss": _chain_xss(case)}] * 2
+        if el == "countfrom":
+            return [{"op": "countfrom", "start": case["start"], "step": case["step"], "n": 5}] * 2
+        raise ValueError(el)
+    if op == "fill_trace":
+        return [{"op": "fill_trace", "start": case["start"] or 0, "stop": case["stop"], "step": case["step"] or 1,
+                 "xs": list(range(case["n"]))}]
+    if op == "fill2":
+        return [{"op": "fill_into", "start": case["start"] or 0, "stop": case["stop"], "step": case["step"] or 1,
+                 "xs": f} for f in (_flow(0, case["n"]), _flow(1, case["n2"]))]
+    if op == "slice_inst":
+        return [{"op": "slice_inst", "start": case["start"], "stop": case["stop"], "step": case["step"],
+                 "ops": case["ops"]}]
     raise ValueError(op)
 
 
@@ -280,6 +737,8 @@ def compare(case, res, replies):
     if "err" in m:
         return f"model driver error: {m['err']}"
     m = _map_model(case, m)
+    if op in ("sess", "twins", "fill_trace", "fill2", "slice_inst"):
+        return _compare_reuse(case, res, replies)
     if "e" in res and op not in ("slice",):
         return f"impl raised {res} vs model {m}"
     if op == "slice":
@@ -309,6 +768,39 @@ def compare(case, res, replies):
     if res["r"] != m["r"]:
         return f"impl {res['r']} vs model {m['r']}"
     return None
+
+
+def _compare_reuse(case, res, replies):
+    op, m = case["op"], replies[0]
+    for r in replies:
+        if "err" in r:
+            return f"model driver error: {r['err']}"
+    if "e" in res or "e" in m:
+        # the only exception the model knows at this level is LenaValueError at construction
+        if res.get("e") == m.get("e") and res.get("phase") == "init":
+            return None
+        return f"impl {res} vs model {m}"
+    if op == "sess":
+        if res["ev"] != m["ev"] or res["rest"] != m["rest"]:
+            return f"impl events {res['ev']} rest {res['rest']} vs model events {m['ev']} rest {m['rest']}"
+        return None
+    if op == "twins":
+        got = [res["a"], res["b"]]
+        want = [replies[0].get("r"), replies[1].get("r")]
+        return None if got == want else f"impl {got} vs model (two fresh instances) {want}"
+    if op == "fill_trace":
+        if res["out"] != m["out"] or res["r"] != m["r"]:
+            return f"impl {res} vs model {m}"
+        return None
+    if op == "fill2":
+        for k, r in (("a", replies[0]), ("b", replies[1])):
+            if res[k]["r"] != r["r"] or res[k]["stop"] != r["stop"]:
+                return f"instance {k}: impl {res[k]} vs model {r}"
+        return None
+    if op == "slice_inst":
+        mev = ["Other:AttributeError" if e == "AttributeError" else e for e in m["ev"]]
+        return None if res["ev"] == mev else f"impl {res['ev']} vs model {mev}"
+    raise ValueError(op)
 
 
 def _windows(case, vals=False):
@@ -353,6 +845,8 @@ def oracle(case, res):
             if len(sel) and sel[-1] >= st:
                 return f"LenaStopFill at index {st} although index {sel[-1]} would be selected"
         return None
+    if op in ("sess", "twins", "fill_trace", "fill2", "slice_inst"):
+        return _oracle_reuse(case, res)
     if "e" in res:
         return f"{op} raised {res} (case {case})"
     if op == "reverse":
@@ -370,7 +864,139 @@ def oracle(case, res):
     raise ValueError(op)
 
 
+_REF_NAME = {"slice": "xs[start:stop:step]", "reverse": "reversed(list(xs))", "chunks": "the sliding windows of xs",
+             "chain": "itertools.chain(*iterables)", "countfrom": "itertools.count(start, step)"}
+
+
+def _el_text(case):
+    el = case["el"]
+    if el == "slice":
+        return f"Slice({case['start']}, {case['stop']}, {case['step']})"
+    if el == "reverse":
+        return "Reverse()"
+    if el == "chunks":
+        return f"RunningChunkBy({case['cs']}, container kind {case['container']})"
+    if el == "chain":
+        return f"Chain(*{_chain_xss(case)} as {case.get('kind', 'list')}s)"
+    return f"CountFrom({case['start']}, {case['step']})"
+
+
+def _per_gen(ev, rest):
+    """what each generator yielded over its life: the values of its events followed by what was collected at the
+    end; and whether a value followed a StopIteration"""
+    out = [[] for _ in rest]
+    stopped, bad = set(), []
+    for g, v in ev:
+        if v is None:
+            stopped.add(g)
+        else:
+            if g in stopped:
+                bad.append(g)
+            out[g].append(v)
+    for g, r in enumerate(rest):
+        if r and g in stopped:
+            bad.append(g)
+        out[g].extend(r)
+    return out, bad
+
+
+def _fill_stop_legit(a, b, s, p):
+    """LenaStopFill while the value at position p is filled is legitimate only if no index >= p is selected"""
+    if b is None:
+        return f"LenaStopFill at index {p} although stop is None (every later index {a or 0}+k*{s or 1} is selected)"
+    sel = range(a or 0, b, s or 1)
+    if len(sel) and sel[-1] >= p:
+        return f"LenaStopFill at index {p} although index {sel[-1]} would be selected"
+    return None
+
+
+def _oracle_reuse(case, res):
+    """The property per call: whatever was done with the instance before, and whatever other generators of the same
+    instance are alive, each run / call equals the Python reference of its own flow."""
+    op = case["op"]
+    if "e" in res:
+        return f"{op} case raised {res}: {case}"
+    if op == "sess":
+        # the same schedule played on the reference objects (a fresh reference object per call)
+        ref = _play(case, _ref_spawner(case))
+        if res["ev"] == ref["ev"] and res["rest"] == ref["rest"]:
+            return None
+        got, bad = _per_gen(res["ev"], res["rest"])
+        want, _ = _per_gen(ref["ev"], ref["rest"])
+        name = _el_text(case)
+        starts = [o for o in case["ops"] if isinstance(o, list)]
+        for g, (x, y) in enumerate(zip(got, want)):
+            if x != y:
+                flow = "" if case["el"] in ("chain", "countfrom") else f" on the flow {starts[g]}"
+                return (f"call number {g + 1} of one {name} instance{flow} yielded {x}, but {_REF_NAME[case['el']]} "
+                        f"gives {y} (schedule: {case['ops']}; a list = new run/call of the instance, g = next of "
+                        f"generator g)")
+        return (f"{name}: generator(s) {sorted(set(bad))} yielded after StopIteration or stopped at a different point "
+                f"than the reference: events {res['ev']} vs reference {ref['ev']} (schedule {case['ops']})")
+    if op == "twins":
+        ref = _play_twins(case, _ref_spawner(case), _ref_spawner(case))
+        if res == ref:
+            return None
+        return (f"two {_el_text(case)} instances used in turn yielded {res['a']} and {res['b']}, the references "
+                f"{_REF_NAME[case['el']]} give {ref['a']} and {ref['b']}")
+    a, b, s = case["start"], case["stop"], case["step"]
+    if op == "fill_trace":
+        fed = _vals(case)
+        ref = _encs(fed[a:b:s])
+        if res["r"] != ref:
+            return (f"Slice({a},{b},{s}).fill_into fed with {fed} (going on after LenaStopFill) filled {res['r']} "
+                    f"but the slice is {ref}; outcomes {res['out']}")
+        odd = [o for o in res["out"] if o not in ("filled", "skipped", "stop")]
+        if odd:
+            return f"Slice({a},{b},{s}).fill_into: {odd[0]} (outcomes {res['out']})"
+        if "stop" in res["out"]:
+            return _fill_stop_legit(a, b, s, res["out"].index("stop"))
+        return None
+    if op == "fill2":
+        for k, fed in (("a", _flow(0, case["n"])), ("b", _flow(1, case["n2"]))):
+            ref = fed[a:b:s]
+            r = res[k]
+            if r["r"] != ref:
+                return (f"two Slice({a},{b},{s}) instances filled in turn: instance {k} fed with {fed} filled {r['r']} "
+                        f"but the slice is {ref}")
+            if r["stop"] is not None:
+                msg = _fill_stop_legit(a, b, s, r["stop"])
+                if msg:
+                    return f"instance {k}: {msg}"
+        return None
+    if op == "slice_inst":
+        neg = any(v is not None and v < 0 for v in (a, b))
+        fed, outs = [], []
+        for i, (o, e) in enumerate(zip(case["ops"], res["ev"])):
+            if isinstance(o, list):
+                ref = o[a:b:s]
+                if e != {"r": ref}:
+                    return (f"Slice({a},{b},{s}).run({o}), operation number {i + 1} on this instance, gave {e} but "
+                            f"xs[start:stop:step] = {ref}; all operations: {case['ops']} (a list = run on that flow, "
+                            f"a number = fill_into of that value)")
+            else:
+                fed.append(o)
+                outs.append(e)
+        if neg:
+            return None     # fill_into with negative arguments is outside the property
+        ref = fed[a:b:s]
+        if res["filled"] != ref:
+            return (f"Slice({a},{b},{s}).fill_into interleaved with run of the same instance: fed {fed}, filled "
+                    f"{res['filled']}, the slice is {ref}; operations {case['ops']}")
+        odd = [o for o in outs if o not in ("filled", "skipped", "stop")]
+        if odd:
+            return f"Slice({a},{b},{s}).fill_into: {odd[0]}; operations {case['ops']}"
+        if "stop" in outs:
+            return _fill_stop_legit(a, b, s, outs.index("stop"))
+        return None
+    raise ValueError(op)
+
+
 def nontrivial(case, res):
+    if case["op"] in ("sess", "slice_inst"):
+        return "e" in res or bool(res.get("ev"))
+    if case["op"] in ("twins", "fill2"):
+        return "e" in res or bool(res.get("a")) or bool(res.get("b"))
     return "e" in res or bool(res.get("r"))
 
 
@@ -384,17 +1010,41 @@ def classify(case, res):
                 "slice:" + ("error" if "e" in res else ("empty" if not res["r"] else "nonempty"))]
     if op == "fill_into":
         return ["fill_into:" + ("stopfill" if res.get("stop") is not None else "nostop")]
+    if op == "sess":
+        return [f"sess:{case['el']}:{case.get('tpl')}"]
+    if op == "twins":
+        return [f"twins:{case['el']}"]
+    if op == "slice_inst":
+        return ["slice_inst:" + case.get("pat", "?")]
     return [op]
 
 
 def signature(case, failure):
     c = dict(case)
+    if "ops" in c:
+        # one report per element configuration and schedule family, not per schedule
+        c.pop("ops")
     return f"{c.pop('op')}:" + ",".join(f"{k}={c[k]}" for k in sorted(c))
 
 
 def shrink(case):
-    if "n" in case and case["n"] > 0:
-        yield dict(case, n=case["n"] - 1)
+    if "ops" in case:
+        ops = case["ops"]
+        for i in reversed(range(len(ops))):
+            # dropping a `next`; dropping a run/call only if no later operation refers to a generator
+            if not isinstance(ops[i], list) or case["op"] == "slice_inst" or \
+                    not any(isinstance(o, int) for o in ops[i + 1:]):
+                yield dict(case, ops=ops[:i] + ops[i + 1:])
+        for i, o in enumerate(ops):
+            if isinstance(o, list) and o:
+                yield dict(case, ops=ops[:i] + [o[:-1]] + ops[i + 1:])
+    for k in ("n", "n2"):
+        if k in case and case[k] > 0:
+            yield dict(case, **{k: case[k] - 1})
+    if isinstance(case.get("lens"), list):
+        for i, l in enumerate(case["lens"]):
+            if l > 0:
+                yield dict(case, lens=case["lens"][:i] + [l - 1] + case["lens"][i + 1:])
     for k in ("start", "stop"):
         v = case.get(k)
         if isinstance(v, int) and v != 0:
@@ -406,7 +1056,10 @@ def shrink(case):
 LEVEL_TEXT = ("Lean 4 theorems about a transcribed model of Slice/Reverse/Chain/CountFrom/RunningChunkBy, for all "
               "indices, steps and finite flows (no bound); the model is tied to /repo by a correspondence check that "
               "enumerates the property's whole stated scope (start,stop in {None,-7..7}, step in {None,1..4}, len 0..10; "
-              "fill_into for all non-negative combinations) on every run, plus a direct Python-slicing oracle on the real code.")
+              "fill_into for all non-negative combinations) on every run, plus a direct Python-slicing oracle on the real code. "
+              "Repeated and interleaved use of one instance is modelled as a state machine (sessions): theorems say that every "
+              "call/run equals the reference whatever the history; the correspondence and the oracle drive the real elements "
+              "through the same schedules.")
 LEVEL_NOTE = ("Trusted: Lean kernel (+ propext, Classical.choice, Quot.sound), the hand transcription validated by the "
               "exhaustive-in-scope correspondence run, itertools/deque semantics as transcribed, the JSON protocol.")
 TECHNIQUE = "Lean 4 proof over hand-written model + exhaustive-in-scope correspondence check"
